@@ -256,8 +256,11 @@ def run_driver(cmd, work, scripts=None, out=None, seed=1, jobs=12, tier="quick",
         args += ["--n", str(n)]
     if extra:
         args += extra
+    hookdir = work.sub("hooklog-" + tag)
+    for f in os.listdir(hookdir):
+        os.remove(os.path.join(hookdir, f))
     try:
-        p = subprocess.run(args, timeout=timeout, stdout=subprocess.PIPE, stderr=subprocess.STDOUT, text=True)
+        p = subprocess.run(args, timeout=timeout, stdout=subprocess.PIPE, stderr=subprocess.STDOUT, text=True, env=dict(os.environ, VDRV_HOOKLOG=hookdir))
     except subprocess.TimeoutExpired:
         raise HarnessError("driver %s timed out after %ds" % (cmd, timeout))
     if not os.path.exists(rep):
@@ -266,7 +269,66 @@ def run_driver(cmd, work, scripts=None, out=None, seed=1, jobs=12, tier="quick",
         r = json.load(f)
     if r.get("errors"):
         raise HarnessError("driver %s reported harness errors (%d), first:\n%s" % (cmd, len(r["errors"]), "\n---\n".join(e[-6000:] for e in r["errors"][:2])))
+    lc = lifecycle_check(work, hookdir, tag)
+    if lc is not None:
+        r["lifecycle"] = lc
+        LIFECYCLE_RUNS.append({"tag": tag, "result": lc,
+                               "again": dict(cmd=cmd, scripts=scripts, out=(out + ".again") if out else None, seed=seed, jobs=jobs, tier=tier, n=n, timeout=timeout, gw=gw, extra=extra, tag=tag + "-lcagain")})
     return r
+
+
+# ------------------------------------------------------------------ lifecycle (hook event logs of whole gateway processes)
+
+LIFECYCLE_RUNS = []
+
+
+def lifecycle_check(work, hookdir, tag):
+    """Replay the hook event logs the driver's gateway instances left behind through the Lifecycle trace
+    specification. Returns {events, instances, viol: [[line, guard, point, role]...], cover} or None."""
+    files = sorted(f for f in os.listdir(hookdir) if f.endswith(".ndjson"))
+    if not files:
+        return None
+    path = work.path("lifecycle-%s.ndjson" % tag)
+    n = 0
+    with open(path, "w") as o:
+        for f in files:
+            with open(os.path.join(hookdir, f)) as i:
+                for line in i:
+                    o.write(line)
+                    n += 1
+            os.remove(os.path.join(hookdir, f))
+    res = trace_check("LifecycleTrace", "LifecycleTrace.cfg", path, work, tag="lc-" + tag, timeout=1800, heap="12g")
+    return {"events": n, "instances": len(files), "viol": res["viol"], "cover": res["cover"], "trace": path, "tlc": res["_tlc"]}
+
+
+def lifecycle_violations(pid, work):
+    """Violations of pid's guards found by the Lifecycle trace specification in the driver runs of this
+    process, confirmed by executing the same driver run once more; plus a coverage summary."""
+    sigof = lambda v: "%s/lifecycle/%s/%s" % (v[1], v[2], v[3])
+    summary = {"events": sum(r["result"]["events"] for r in LIFECYCLE_RUNS), "gateway_processes": sum(r["result"]["instances"] for r in LIFECYCLE_RUNS),
+               "hook_points_seen": sorted({"%s/%s" % tuple(c) for r in LIFECYCLE_RUNS for c in r["result"]["cover"]}),
+               "guards_of_other_properties_violated": sorted({v[1] for r in LIFECYCLE_RUNS for v in r["result"]["viol"] if guard_property(v[1]) != pid}),
+               "rule": "every hook event of every gateway process of this check, in the gateway's own order, replayed through Lifecycle.tla's effects; each precondition of the corresponding action is evaluated (LifecycleTrace)"}
+    out = []
+    runs = list(LIFECYCLE_RUNS)
+    for r in runs:
+        mine = [v for v in r["result"]["viol"] if guard_property(v[1]) == pid]
+        if not mine:
+            continue
+        a = r["again"]
+        rep2 = run_driver(a["cmd"], work, scripts=a["scripts"], out=a["out"], seed=a["seed"], jobs=a["jobs"], tier=a["tier"], n=a["n"], timeout=a["timeout"], gw=a["gw"], extra=a["extra"], tag=a["tag"])
+        LIFECYCLE_RUNS.pop()   # the confirmation run is not a run of its own
+        seen2 = {sigof(v) for v in (rep2.get("lifecycle") or {}).get("viol", [])}
+        confirmed = sorted({sigof(v) for v in mine} & seen2)
+        if not confirmed:
+            raise HarnessError("lifecycle violations of %s did not reproduce: %s" % (pid, sorted({sigof(v) for v in mine})[:5]))
+        lines = read_ndjson(r["result"]["trace"]) if os.path.exists(r["result"]["trace"]) else []
+        for sig in confirmed:
+            v = next(x for x in mine if sigof(x) == sig)
+            ctx = lines[max(0, v[0] - 8):v[0]] if lines else []
+            out.append({"signature": sig, "what": "%s does not hold at hook event %s (goroutine role %s): the gateway took a step the Lifecycle specification does not allow" % (v[1], v[2], v[3]),
+                        "guard": v[1], "events_before": ctx, "replay": "re-run this check (the driver run %s)" % r["tag"]})
+    return out, summary
 
 
 # ------------------------------------------------------------------ findings / evidence
